@@ -276,6 +276,34 @@ func runC15(c *Ctx) {
 			}
 		}
 	}
+	// ---- a whole SEC1 point (04 || X || Y, or 02/03 || X) carried in x, with and without y ----
+	{
+		rr := mon.NewRand(uint64(c.Seed)).Sub(163950)
+		for ci, cv := range []elliptic.Curve{elliptic.P256(), elliptic.P384(), elliptic.P521()} {
+			k := gen.ECKey(cv, rr)
+			size := (cv.Params().BitSize + 7) / 8
+			X, Y := k.X.FillBytes(make([]byte, size)), k.Y.FillBytes(make([]byte, size))
+			for name, x := range map[string][]byte{
+				"uncompressed-point-in-x": append(append([]byte{4}, X...), Y...),
+				"compressed-point-in-x":   append([]byte{2 + byte(k.Y.Bit(0))}, X...),
+				"hybrid-point-in-x":       append(append([]byte{6 + byte(k.Y.Bit(0))}, X...), Y...),
+				"x-and-y-concatenated":    append(append([]byte{}, X...), Y...),
+			} {
+				for _, withY := range []bool{false, true} {
+					for _, withD := range []bool{false, true} {
+						es := []gen.KeyEntry{{Label: refcbor.NInt(1), Value: refcbor.NInt(2)}, {Label: refcbor.NInt(-1), Value: refcbor.NInt(int64(ci + 1))}, {Label: refcbor.NInt(-2), Value: refcbor.NBstr(x)}}
+						if withY {
+							es = append(es, gen.KeyEntry{Label: refcbor.NInt(-3), Value: refcbor.NBstr(Y)})
+						}
+						if withD {
+							es = append(es, gen.KeyEntry{Label: refcbor.NInt(-4), Value: refcbor.NBstr(k.D.FillBytes(make([]byte, size)))})
+						}
+						c15judgeWire(rec, refcbor.Encode(gen.KeyMap(es)), fmt.Sprintf("sec1-point-in-x/%s/y=%v/d=%v", name, withY, withD), "sec1-in-x")
+					}
+				}
+			}
+		}
+	}
 	// fixed witness of known finding F3, so that it is reported by every run
 	{
 		w := gen.KeyMap([]gen.KeyEntry{{Label: refcbor.NInt(1), Value: refcbor.NInt(4)}, {Label: refcbor.NInt(-1), Value: refcbor.NBstr([]byte("0123456789abcdef"))},
